@@ -7,6 +7,7 @@ import (
 	"os"
 	"strconv"
 
+	"verifharness/drv/c03"
 	"verifharness/drv/c05"
 	"verifharness/drv/c06"
 	"verifharness/drv/c11"
@@ -62,6 +63,8 @@ func main() {
 		c05.Run(os.Args[2], os.Args[3])
 	case "c06":
 		c06.Run(os.Args[2], os.Args[3])
+	case "c03":
+		c03.Run(os.Args[2], os.Args[3])
 	case "c19x":
 		a := os.Args
 		c19.Explicit(a[2], a[3], atoi(a[4]), atoi(a[5]), atoi(a[6]), a[7] == "1")
